@@ -9,6 +9,9 @@ import FlVerif.Lemmas.CodeRaisedStr
 import FlVerif.Lemmas.CodeBlockActImport   -- the factory look-ups of the importer (`FllImporter.tnorm` / `snorm`)
 import FlVerif.Lemmas.CodeWave5XCfg        -- `Engine.configure`, `FllImporter.component`
 
+import FlVerif.Lemmas.CodeWave5Y           -- the shape classes of term.py: constructors, parameters, configure
+import FlVerif.Lemmas.CodeWave5YAct        -- the activation methods: constructors, parameters, configure
+
 /-! # C14 — FuzzyLite Language export / import round-trips engines
 
 Model: `Op.FllIO` (token level: a line is a key and the tokens of its value; a number token carries the exact
@@ -789,5 +792,768 @@ theorem configure_unknown_tnorm (F : Factories) (e : Engine) (a : ConfigArgs) (s
   Op.Engine.configure_unknown_tnorm F e a s hF ha hs
 
 end Configure
+
+/-! ## Tie A: the shape classes of `term.py` – `__init__`, `parameters`, `configure` and the per-class round trip
+
+The nineteen classes that are configured through `Term._parse` (`Gen/CodeWave5Y.lean`, regenerated from the current
+source; `Triangle.configure`, `Trapezoid.configure`, `Triangle.parameters` are in the blocks above).  A constructor
+stores every argument in the attribute of the same name (numbers as `X Rat`); `Triangle.__init__` / `Trapezoid.__init__`
+compute missing vertices: `Py.W5Y.triangleVertices` / `trapezoidVertices`, with the NaN tests in the order of the source.
+`parameters` prints the attributes in the order of the constructor, then the height; `configure` assigns the values of
+`Term._parse` in the same order.  `configure_parameters_<class>` is the round trip **over the generated code**:
+`configure` of a fresh object on the text that `parameters()` of an object prints stores the printed values
+(`rnd d x`: the value of the printed decimal) and the height, 1 when it was not printed (`canonH`).  Its hypothesis
+`Py.W5Y.ReadsBack` is the joint that the theorems of this property leave to the correspondence: splitting the joined
+words and reading each printed decimal with `to_float` gives the tokens that were printed. -/
+
+/-- the vertices when all are given / when the last one(s) are NaN; `Trapezoid` computes only when *both* `top_right`
+    and `bottom_right` are NaN -/
+theorem vertices_laws (a b c d : X Rat) (p q : Rat) :
+    (X.isnan c = false → Py.W5Y.triangleVertices a b c = (a, b, c)) ∧
+    Py.W5Y.triangleVertices (.fin p) (.fin q) .nan = (.fin p, .fin ((p + q) / 2), .fin q) ∧
+    (X.isnan c = false ∨ X.isnan d = false → Py.W5Y.trapezoidVertices a b c d = (a, b, c, d)) ∧
+    Py.W5Y.trapezoidVertices (.fin p) (.fin q) .nan .nan =
+      (.fin p, .fin (p + (q - p) * 1 / 5), .fin (p + (q - p) * 4 / 5), .fin q) :=
+  ⟨Py.W5Y.triangleVertices_given a b c, Py.W5Y.triangleVertices_midpoint p q, Py.W5Y.trapezoidVertices_given a b c d,
+   Py.W5Y.trapezoidVertices_ends p q⟩
+
+/-- the arities `configure` passes to `Term._parse` are those of the regenerated table `Gen.Tables.termParse` (what the
+    model's `configure` looks up), class by class -/
+theorem shape_arities :
+    Gen.Tables.termParse.filter (fun p => p.1 ≠ "Constant") =
+      [("Arc", 2, true), ("Bell", 3, true), ("Binary", 2, true), ("Concave", 2, true), ("Cosine", 2, true),
+       ("Gaussian", 2, true), ("GaussianProduct", 4, true), ("PiShape", 4, true), ("Ramp", 2, true), ("Rectangle", 2, true),
+       ("SShape", 2, true), ("SemiEllipse", 2, true), ("Sigmoid", 2, true), ("SigmoidDifference", 4, true),
+       ("SigmoidProduct", 4, true), ("Spike", 2, true), ("Trapezoid", 4, true), ("Triangle", 3, true), ("ZShape", 2, true)] := by
+  decide
+
+/-- `Arc.__init__` stores every argument in the attribute of the same name (and does not raise) -/
+theorem code_arcInit (name : String) (start end_ height : X Rat) (σ0 : Gen.Code.Arc_init.S) :
+    ∃ σ, Gen.Code.Arc_init.run name start end_ height σ0 = .ok σ ∧ σ.self_name = name ∧
+      σ.self_start = start ∧ σ.self_end = end_ ∧ σ.self_height = height :=
+  Py.W5Y.code_arcInit name start end_ height σ0
+
+/-- `Arc.parameters`: the 2 parameters in the order of the constructor, then the height (under the rule of `Term._parameters`) -/
+theorem code_arcParameters (c : Cfg) (start end_ h : Num) :
+    ∃ σ, Gen.Code.Arc_parameters.run c start end_ h {} = .ok σ ∧
+      σ.ret = some (Py.Fll.termParameters c (.shape [start, end_] (some h))) :=
+  Py.W5Y.code_arcParameters c start end_ h
+
+/-- `Arc.configure`: 2 parameters and the optional height, assigned in this order -/
+theorem code_arcConfigure (rd : String → Option Num) (parameters : String) :
+    match numsOf (Py.FllIn.toks rd parameters) >>= parseShape 2 true with
+    | .error e => Gen.Code.Arc_configure.run rd parameters {} = .error e.toPy
+    | .ok b => ∃ σ, Gen.Code.Arc_configure.run rd parameters {} = .ok σ ∧
+        b = .shape [σ.self_start, σ.self_end] (some σ.self_height) :=
+  Py.W5Y.code_arcConfigure rd parameters
+
+/-- round trip of `Arc`: `configure` of a fresh object on the text `parameters()` prints gives the printed values -/
+theorem configure_parameters_arc (rd : String → Option Num) (c : Cfg) (start end_ h : Num)
+    (hrd : Py.W5Y.ReadsBack rd c (.shape [start, end_] (some h))) :
+    ∃ σp text σc, Gen.Code.Arc_parameters.run c start end_ h {} = .ok σp ∧ σp.ret = some text ∧
+      Gen.Code.Arc_configure.run rd text {} = .ok σc ∧
+      σc.self_start = rnd c.d start ∧ σc.self_end = rnd c.d end_ ∧
+      σc.self_height = canonH (keepHeight c) c h :=
+  Py.W5Y.configure_parameters_arc rd c start end_ h hrd
+
+/-- `Bell.__init__` stores every argument in the attribute of the same name (and does not raise) -/
+theorem code_bellInit (name : String) (center width slope height : X Rat) (σ0 : Gen.Code.Bell_init.S) :
+    ∃ σ, Gen.Code.Bell_init.run name center width slope height σ0 = .ok σ ∧ σ.self_name = name ∧
+      σ.self_center = center ∧ σ.self_width = width ∧ σ.self_slope = slope ∧ σ.self_height = height :=
+  Py.W5Y.code_bellInit name center width slope height σ0
+
+/-- `Bell.parameters`: the 3 parameters in the order of the constructor, then the height (under the rule of `Term._parameters`) -/
+theorem code_bellParameters (c : Cfg) (center width slope h : Num) :
+    ∃ σ, Gen.Code.Bell_parameters.run c center width slope h {} = .ok σ ∧
+      σ.ret = some (Py.Fll.termParameters c (.shape [center, width, slope] (some h))) :=
+  Py.W5Y.code_bellParameters c center width slope h
+
+/-- `Bell.configure`: 3 parameters and the optional height, assigned in this order -/
+theorem code_bellConfigure (rd : String → Option Num) (parameters : String) :
+    match numsOf (Py.FllIn.toks rd parameters) >>= parseShape 3 true with
+    | .error e => Gen.Code.Bell_configure.run rd parameters {} = .error e.toPy
+    | .ok b => ∃ σ, Gen.Code.Bell_configure.run rd parameters {} = .ok σ ∧
+        b = .shape [σ.self_center, σ.self_width, σ.self_slope] (some σ.self_height) :=
+  Py.W5Y.code_bellConfigure rd parameters
+
+/-- round trip of `Bell`: `configure` of a fresh object on the text `parameters()` prints gives the printed values -/
+theorem configure_parameters_bell (rd : String → Option Num) (c : Cfg) (center width slope h : Num)
+    (hrd : Py.W5Y.ReadsBack rd c (.shape [center, width, slope] (some h))) :
+    ∃ σp text σc, Gen.Code.Bell_parameters.run c center width slope h {} = .ok σp ∧ σp.ret = some text ∧
+      Gen.Code.Bell_configure.run rd text {} = .ok σc ∧
+      σc.self_center = rnd c.d center ∧ σc.self_width = rnd c.d width ∧ σc.self_slope = rnd c.d slope ∧
+      σc.self_height = canonH (keepHeight c) c h :=
+  Py.W5Y.configure_parameters_bell rd c center width slope h hrd
+
+/-- `Binary.__init__` stores every argument in the attribute of the same name (and does not raise) -/
+theorem code_binaryInit (name : String) (start direction height : X Rat) (σ0 : Gen.Code.Binary_init.S) :
+    ∃ σ, Gen.Code.Binary_init.run name start direction height σ0 = .ok σ ∧ σ.self_name = name ∧
+      σ.self_start = start ∧ σ.self_direction = direction ∧ σ.self_height = height :=
+  Py.W5Y.code_binaryInit name start direction height σ0
+
+/-- `Binary.parameters`: the 2 parameters in the order of the constructor, then the height (under the rule of `Term._parameters`) -/
+theorem code_binaryParameters (c : Cfg) (start direction h : Num) :
+    ∃ σ, Gen.Code.Binary_parameters.run c start direction h {} = .ok σ ∧
+      σ.ret = some (Py.Fll.termParameters c (.shape [start, direction] (some h))) :=
+  Py.W5Y.code_binaryParameters c start direction h
+
+/-- `Binary.configure`: 2 parameters and the optional height, assigned in this order -/
+theorem code_binaryConfigure (rd : String → Option Num) (parameters : String) :
+    match numsOf (Py.FllIn.toks rd parameters) >>= parseShape 2 true with
+    | .error e => Gen.Code.Binary_configure.run rd parameters {} = .error e.toPy
+    | .ok b => ∃ σ, Gen.Code.Binary_configure.run rd parameters {} = .ok σ ∧
+        b = .shape [σ.self_start, σ.self_direction] (some σ.self_height) :=
+  Py.W5Y.code_binaryConfigure rd parameters
+
+/-- round trip of `Binary`: `configure` of a fresh object on the text `parameters()` prints gives the printed values -/
+theorem configure_parameters_binary (rd : String → Option Num) (c : Cfg) (start direction h : Num)
+    (hrd : Py.W5Y.ReadsBack rd c (.shape [start, direction] (some h))) :
+    ∃ σp text σc, Gen.Code.Binary_parameters.run c start direction h {} = .ok σp ∧ σp.ret = some text ∧
+      Gen.Code.Binary_configure.run rd text {} = .ok σc ∧
+      σc.self_start = rnd c.d start ∧ σc.self_direction = rnd c.d direction ∧
+      σc.self_height = canonH (keepHeight c) c h :=
+  Py.W5Y.configure_parameters_binary rd c start direction h hrd
+
+/-- `Concave.__init__` stores every argument in the attribute of the same name (and does not raise) -/
+theorem code_concaveInit (name : String) (inflection end_ height : X Rat) (σ0 : Gen.Code.Concave_init.S) :
+    ∃ σ, Gen.Code.Concave_init.run name inflection end_ height σ0 = .ok σ ∧ σ.self_name = name ∧
+      σ.self_inflection = inflection ∧ σ.self_end = end_ ∧ σ.self_height = height :=
+  Py.W5Y.code_concaveInit name inflection end_ height σ0
+
+/-- `Concave.parameters`: the 2 parameters in the order of the constructor, then the height (under the rule of `Term._parameters`) -/
+theorem code_concaveParameters (c : Cfg) (inflection end_ h : Num) :
+    ∃ σ, Gen.Code.Concave_parameters.run c inflection end_ h {} = .ok σ ∧
+      σ.ret = some (Py.Fll.termParameters c (.shape [inflection, end_] (some h))) :=
+  Py.W5Y.code_concaveParameters c inflection end_ h
+
+/-- `Concave.configure`: 2 parameters and the optional height, assigned in this order -/
+theorem code_concaveConfigure (rd : String → Option Num) (parameters : String) :
+    match numsOf (Py.FllIn.toks rd parameters) >>= parseShape 2 true with
+    | .error e => Gen.Code.Concave_configure.run rd parameters {} = .error e.toPy
+    | .ok b => ∃ σ, Gen.Code.Concave_configure.run rd parameters {} = .ok σ ∧
+        b = .shape [σ.self_inflection, σ.self_end] (some σ.self_height) :=
+  Py.W5Y.code_concaveConfigure rd parameters
+
+/-- round trip of `Concave`: `configure` of a fresh object on the text `parameters()` prints gives the printed values -/
+theorem configure_parameters_concave (rd : String → Option Num) (c : Cfg) (inflection end_ h : Num)
+    (hrd : Py.W5Y.ReadsBack rd c (.shape [inflection, end_] (some h))) :
+    ∃ σp text σc, Gen.Code.Concave_parameters.run c inflection end_ h {} = .ok σp ∧ σp.ret = some text ∧
+      Gen.Code.Concave_configure.run rd text {} = .ok σc ∧
+      σc.self_inflection = rnd c.d inflection ∧ σc.self_end = rnd c.d end_ ∧
+      σc.self_height = canonH (keepHeight c) c h :=
+  Py.W5Y.configure_parameters_concave rd c inflection end_ h hrd
+
+/-- `Cosine.__init__` stores every argument in the attribute of the same name (and does not raise) -/
+theorem code_cosineInit (name : String) (center width height : X Rat) (σ0 : Gen.Code.Cosine_init.S) :
+    ∃ σ, Gen.Code.Cosine_init.run name center width height σ0 = .ok σ ∧ σ.self_name = name ∧
+      σ.self_center = center ∧ σ.self_width = width ∧ σ.self_height = height :=
+  Py.W5Y.code_cosineInit name center width height σ0
+
+/-- `Cosine.parameters`: the 2 parameters in the order of the constructor, then the height (under the rule of `Term._parameters`) -/
+theorem code_cosineParameters (c : Cfg) (center width h : Num) :
+    ∃ σ, Gen.Code.Cosine_parameters.run c center width h {} = .ok σ ∧
+      σ.ret = some (Py.Fll.termParameters c (.shape [center, width] (some h))) :=
+  Py.W5Y.code_cosineParameters c center width h
+
+/-- `Cosine.configure`: 2 parameters and the optional height, assigned in this order -/
+theorem code_cosineConfigure (rd : String → Option Num) (parameters : String) :
+    match numsOf (Py.FllIn.toks rd parameters) >>= parseShape 2 true with
+    | .error e => Gen.Code.Cosine_configure.run rd parameters {} = .error e.toPy
+    | .ok b => ∃ σ, Gen.Code.Cosine_configure.run rd parameters {} = .ok σ ∧
+        b = .shape [σ.self_center, σ.self_width] (some σ.self_height) :=
+  Py.W5Y.code_cosineConfigure rd parameters
+
+/-- round trip of `Cosine`: `configure` of a fresh object on the text `parameters()` prints gives the printed values -/
+theorem configure_parameters_cosine (rd : String → Option Num) (c : Cfg) (center width h : Num)
+    (hrd : Py.W5Y.ReadsBack rd c (.shape [center, width] (some h))) :
+    ∃ σp text σc, Gen.Code.Cosine_parameters.run c center width h {} = .ok σp ∧ σp.ret = some text ∧
+      Gen.Code.Cosine_configure.run rd text {} = .ok σc ∧
+      σc.self_center = rnd c.d center ∧ σc.self_width = rnd c.d width ∧
+      σc.self_height = canonH (keepHeight c) c h :=
+  Py.W5Y.configure_parameters_cosine rd c center width h hrd
+
+/-- `Gaussian.__init__` stores every argument in the attribute of the same name (and does not raise) -/
+theorem code_gaussianInit (name : String) (mean standard_deviation height : X Rat) (σ0 : Gen.Code.Gaussian_init.S) :
+    ∃ σ, Gen.Code.Gaussian_init.run name mean standard_deviation height σ0 = .ok σ ∧ σ.self_name = name ∧
+      σ.self_mean = mean ∧ σ.self_standard_deviation = standard_deviation ∧ σ.self_height = height :=
+  Py.W5Y.code_gaussianInit name mean standard_deviation height σ0
+
+/-- `Gaussian.parameters`: the 2 parameters in the order of the constructor, then the height (under the rule of `Term._parameters`) -/
+theorem code_gaussianParameters (c : Cfg) (mean standard_deviation h : Num) :
+    ∃ σ, Gen.Code.Gaussian_parameters.run c mean standard_deviation h {} = .ok σ ∧
+      σ.ret = some (Py.Fll.termParameters c (.shape [mean, standard_deviation] (some h))) :=
+  Py.W5Y.code_gaussianParameters c mean standard_deviation h
+
+/-- `Gaussian.configure`: 2 parameters and the optional height, assigned in this order -/
+theorem code_gaussianConfigure (rd : String → Option Num) (parameters : String) :
+    match numsOf (Py.FllIn.toks rd parameters) >>= parseShape 2 true with
+    | .error e => Gen.Code.Gaussian_configure.run rd parameters {} = .error e.toPy
+    | .ok b => ∃ σ, Gen.Code.Gaussian_configure.run rd parameters {} = .ok σ ∧
+        b = .shape [σ.self_mean, σ.self_standard_deviation] (some σ.self_height) :=
+  Py.W5Y.code_gaussianConfigure rd parameters
+
+/-- round trip of `Gaussian`: `configure` of a fresh object on the text `parameters()` prints gives the printed values -/
+theorem configure_parameters_gaussian (rd : String → Option Num) (c : Cfg) (mean standard_deviation h : Num)
+    (hrd : Py.W5Y.ReadsBack rd c (.shape [mean, standard_deviation] (some h))) :
+    ∃ σp text σc, Gen.Code.Gaussian_parameters.run c mean standard_deviation h {} = .ok σp ∧ σp.ret = some text ∧
+      Gen.Code.Gaussian_configure.run rd text {} = .ok σc ∧
+      σc.self_mean = rnd c.d mean ∧ σc.self_standard_deviation = rnd c.d standard_deviation ∧
+      σc.self_height = canonH (keepHeight c) c h :=
+  Py.W5Y.configure_parameters_gaussian rd c mean standard_deviation h hrd
+
+/-- `GaussianProduct.__init__` stores every argument in the attribute of the same name (and does not raise) -/
+theorem code_gaussianProductInit (name : String) (mean_a standard_deviation_a mean_b standard_deviation_b height : X Rat) (σ0 : Gen.Code.GaussianProduct_init.S) :
+    ∃ σ, Gen.Code.GaussianProduct_init.run name mean_a standard_deviation_a mean_b standard_deviation_b height σ0 = .ok σ ∧ σ.self_name = name ∧
+      σ.self_mean_a = mean_a ∧ σ.self_standard_deviation_a = standard_deviation_a ∧ σ.self_mean_b = mean_b ∧ σ.self_standard_deviation_b = standard_deviation_b ∧ σ.self_height = height :=
+  Py.W5Y.code_gaussianProductInit name mean_a standard_deviation_a mean_b standard_deviation_b height σ0
+
+/-- `GaussianProduct.parameters`: the 4 parameters in the order of the constructor, then the height (under the rule of `Term._parameters`) -/
+theorem code_gaussianProductParameters (c : Cfg) (mean_a standard_deviation_a mean_b standard_deviation_b h : Num) :
+    ∃ σ, Gen.Code.GaussianProduct_parameters.run c mean_a standard_deviation_a mean_b standard_deviation_b h {} = .ok σ ∧
+      σ.ret = some (Py.Fll.termParameters c (.shape [mean_a, standard_deviation_a, mean_b, standard_deviation_b] (some h))) :=
+  Py.W5Y.code_gaussianProductParameters c mean_a standard_deviation_a mean_b standard_deviation_b h
+
+/-- `GaussianProduct.configure`: 4 parameters and the optional height, assigned in this order -/
+theorem code_gaussianProductConfigure (rd : String → Option Num) (parameters : String) :
+    match numsOf (Py.FllIn.toks rd parameters) >>= parseShape 4 true with
+    | .error e => Gen.Code.GaussianProduct_configure.run rd parameters {} = .error e.toPy
+    | .ok b => ∃ σ, Gen.Code.GaussianProduct_configure.run rd parameters {} = .ok σ ∧
+        b = .shape [σ.self_mean_a, σ.self_standard_deviation_a, σ.self_mean_b, σ.self_standard_deviation_b] (some σ.self_height) :=
+  Py.W5Y.code_gaussianProductConfigure rd parameters
+
+/-- round trip of `GaussianProduct`: `configure` of a fresh object on the text `parameters()` prints gives the printed values -/
+theorem configure_parameters_gaussianProduct (rd : String → Option Num) (c : Cfg) (mean_a standard_deviation_a mean_b standard_deviation_b h : Num)
+    (hrd : Py.W5Y.ReadsBack rd c (.shape [mean_a, standard_deviation_a, mean_b, standard_deviation_b] (some h))) :
+    ∃ σp text σc, Gen.Code.GaussianProduct_parameters.run c mean_a standard_deviation_a mean_b standard_deviation_b h {} = .ok σp ∧ σp.ret = some text ∧
+      Gen.Code.GaussianProduct_configure.run rd text {} = .ok σc ∧
+      σc.self_mean_a = rnd c.d mean_a ∧ σc.self_standard_deviation_a = rnd c.d standard_deviation_a ∧ σc.self_mean_b = rnd c.d mean_b ∧ σc.self_standard_deviation_b = rnd c.d standard_deviation_b ∧
+      σc.self_height = canonH (keepHeight c) c h :=
+  Py.W5Y.configure_parameters_gaussianProduct rd c mean_a standard_deviation_a mean_b standard_deviation_b h hrd
+
+/-- `PiShape.__init__` stores every argument in the attribute of the same name (and does not raise) -/
+theorem code_piShapeInit (name : String) (bottom_left top_left top_right bottom_right height : X Rat) (σ0 : Gen.Code.PiShape_init.S) :
+    ∃ σ, Gen.Code.PiShape_init.run name bottom_left top_left top_right bottom_right height σ0 = .ok σ ∧ σ.self_name = name ∧
+      σ.self_bottom_left = bottom_left ∧ σ.self_top_left = top_left ∧ σ.self_top_right = top_right ∧ σ.self_bottom_right = bottom_right ∧ σ.self_height = height :=
+  Py.W5Y.code_piShapeInit name bottom_left top_left top_right bottom_right height σ0
+
+/-- `PiShape.parameters`: the 4 parameters in the order of the constructor, then the height (under the rule of `Term._parameters`) -/
+theorem code_piShapeParameters (c : Cfg) (bottom_left top_left top_right bottom_right h : Num) :
+    ∃ σ, Gen.Code.PiShape_parameters.run c bottom_left top_left top_right bottom_right h {} = .ok σ ∧
+      σ.ret = some (Py.Fll.termParameters c (.shape [bottom_left, top_left, top_right, bottom_right] (some h))) :=
+  Py.W5Y.code_piShapeParameters c bottom_left top_left top_right bottom_right h
+
+/-- `PiShape.configure`: 4 parameters and the optional height, assigned in this order -/
+theorem code_piShapeConfigure (rd : String → Option Num) (parameters : String) :
+    match numsOf (Py.FllIn.toks rd parameters) >>= parseShape 4 true with
+    | .error e => Gen.Code.PiShape_configure.run rd parameters {} = .error e.toPy
+    | .ok b => ∃ σ, Gen.Code.PiShape_configure.run rd parameters {} = .ok σ ∧
+        b = .shape [σ.self_bottom_left, σ.self_top_left, σ.self_top_right, σ.self_bottom_right] (some σ.self_height) :=
+  Py.W5Y.code_piShapeConfigure rd parameters
+
+/-- round trip of `PiShape`: `configure` of a fresh object on the text `parameters()` prints gives the printed values -/
+theorem configure_parameters_piShape (rd : String → Option Num) (c : Cfg) (bottom_left top_left top_right bottom_right h : Num)
+    (hrd : Py.W5Y.ReadsBack rd c (.shape [bottom_left, top_left, top_right, bottom_right] (some h))) :
+    ∃ σp text σc, Gen.Code.PiShape_parameters.run c bottom_left top_left top_right bottom_right h {} = .ok σp ∧ σp.ret = some text ∧
+      Gen.Code.PiShape_configure.run rd text {} = .ok σc ∧
+      σc.self_bottom_left = rnd c.d bottom_left ∧ σc.self_top_left = rnd c.d top_left ∧ σc.self_top_right = rnd c.d top_right ∧ σc.self_bottom_right = rnd c.d bottom_right ∧
+      σc.self_height = canonH (keepHeight c) c h :=
+  Py.W5Y.configure_parameters_piShape rd c bottom_left top_left top_right bottom_right h hrd
+
+/-- `Ramp.__init__` stores every argument in the attribute of the same name (and does not raise) -/
+theorem code_rampInit (name : String) (start end_ height : X Rat) (σ0 : Gen.Code.Ramp_init.S) :
+    ∃ σ, Gen.Code.Ramp_init.run name start end_ height σ0 = .ok σ ∧ σ.self_name = name ∧
+      σ.self_start = start ∧ σ.self_end = end_ ∧ σ.self_height = height :=
+  Py.W5Y.code_rampInit name start end_ height σ0
+
+/-- `Ramp.parameters`: the 2 parameters in the order of the constructor, then the height (under the rule of `Term._parameters`) -/
+theorem code_rampParameters (c : Cfg) (start end_ h : Num) :
+    ∃ σ, Gen.Code.Ramp_parameters.run c start end_ h {} = .ok σ ∧
+      σ.ret = some (Py.Fll.termParameters c (.shape [start, end_] (some h))) :=
+  Py.W5Y.code_rampParameters c start end_ h
+
+/-- `Ramp.configure`: 2 parameters and the optional height, assigned in this order -/
+theorem code_rampConfigure (rd : String → Option Num) (parameters : String) :
+    match numsOf (Py.FllIn.toks rd parameters) >>= parseShape 2 true with
+    | .error e => Gen.Code.Ramp_configure.run rd parameters {} = .error e.toPy
+    | .ok b => ∃ σ, Gen.Code.Ramp_configure.run rd parameters {} = .ok σ ∧
+        b = .shape [σ.self_start, σ.self_end] (some σ.self_height) :=
+  Py.W5Y.code_rampConfigure rd parameters
+
+/-- round trip of `Ramp`: `configure` of a fresh object on the text `parameters()` prints gives the printed values -/
+theorem configure_parameters_ramp (rd : String → Option Num) (c : Cfg) (start end_ h : Num)
+    (hrd : Py.W5Y.ReadsBack rd c (.shape [start, end_] (some h))) :
+    ∃ σp text σc, Gen.Code.Ramp_parameters.run c start end_ h {} = .ok σp ∧ σp.ret = some text ∧
+      Gen.Code.Ramp_configure.run rd text {} = .ok σc ∧
+      σc.self_start = rnd c.d start ∧ σc.self_end = rnd c.d end_ ∧
+      σc.self_height = canonH (keepHeight c) c h :=
+  Py.W5Y.configure_parameters_ramp rd c start end_ h hrd
+
+/-- `Rectangle.__init__` stores every argument in the attribute of the same name (and does not raise) -/
+theorem code_rectangleInit (name : String) (start end_ height : X Rat) (σ0 : Gen.Code.Rectangle_init.S) :
+    ∃ σ, Gen.Code.Rectangle_init.run name start end_ height σ0 = .ok σ ∧ σ.self_name = name ∧
+      σ.self_start = start ∧ σ.self_end = end_ ∧ σ.self_height = height :=
+  Py.W5Y.code_rectangleInit name start end_ height σ0
+
+/-- `Rectangle.parameters`: the 2 parameters in the order of the constructor, then the height (under the rule of `Term._parameters`) -/
+theorem code_rectangleParameters (c : Cfg) (start end_ h : Num) :
+    ∃ σ, Gen.Code.Rectangle_parameters.run c start end_ h {} = .ok σ ∧
+      σ.ret = some (Py.Fll.termParameters c (.shape [start, end_] (some h))) :=
+  Py.W5Y.code_rectangleParameters c start end_ h
+
+/-- `Rectangle.configure`: 2 parameters and the optional height, assigned in this order -/
+theorem code_rectangleConfigure (rd : String → Option Num) (parameters : String) :
+    match numsOf (Py.FllIn.toks rd parameters) >>= parseShape 2 true with
+    | .error e => Gen.Code.Rectangle_configure.run rd parameters {} = .error e.toPy
+    | .ok b => ∃ σ, Gen.Code.Rectangle_configure.run rd parameters {} = .ok σ ∧
+        b = .shape [σ.self_start, σ.self_end] (some σ.self_height) :=
+  Py.W5Y.code_rectangleConfigure rd parameters
+
+/-- round trip of `Rectangle`: `configure` of a fresh object on the text `parameters()` prints gives the printed values -/
+theorem configure_parameters_rectangle (rd : String → Option Num) (c : Cfg) (start end_ h : Num)
+    (hrd : Py.W5Y.ReadsBack rd c (.shape [start, end_] (some h))) :
+    ∃ σp text σc, Gen.Code.Rectangle_parameters.run c start end_ h {} = .ok σp ∧ σp.ret = some text ∧
+      Gen.Code.Rectangle_configure.run rd text {} = .ok σc ∧
+      σc.self_start = rnd c.d start ∧ σc.self_end = rnd c.d end_ ∧
+      σc.self_height = canonH (keepHeight c) c h :=
+  Py.W5Y.configure_parameters_rectangle rd c start end_ h hrd
+
+/-- `SemiEllipse.__init__` stores every argument in the attribute of the same name (and does not raise) -/
+theorem code_semiEllipseInit (name : String) (start end_ height : X Rat) (σ0 : Gen.Code.SemiEllipse_init.S) :
+    ∃ σ, Gen.Code.SemiEllipse_init.run name start end_ height σ0 = .ok σ ∧ σ.self_name = name ∧
+      σ.self_start = start ∧ σ.self_end = end_ ∧ σ.self_height = height :=
+  Py.W5Y.code_semiEllipseInit name start end_ height σ0
+
+/-- `SemiEllipse.parameters`: the 2 parameters in the order of the constructor, then the height (under the rule of `Term._parameters`) -/
+theorem code_semiEllipseParameters (c : Cfg) (start end_ h : Num) :
+    ∃ σ, Gen.Code.SemiEllipse_parameters.run c start end_ h {} = .ok σ ∧
+      σ.ret = some (Py.Fll.termParameters c (.shape [start, end_] (some h))) :=
+  Py.W5Y.code_semiEllipseParameters c start end_ h
+
+/-- `SemiEllipse.configure`: 2 parameters and the optional height, assigned in this order -/
+theorem code_semiEllipseConfigure (rd : String → Option Num) (parameters : String) :
+    match numsOf (Py.FllIn.toks rd parameters) >>= parseShape 2 true with
+    | .error e => Gen.Code.SemiEllipse_configure.run rd parameters {} = .error e.toPy
+    | .ok b => ∃ σ, Gen.Code.SemiEllipse_configure.run rd parameters {} = .ok σ ∧
+        b = .shape [σ.self_start, σ.self_end] (some σ.self_height) :=
+  Py.W5Y.code_semiEllipseConfigure rd parameters
+
+/-- round trip of `SemiEllipse`: `configure` of a fresh object on the text `parameters()` prints gives the printed values -/
+theorem configure_parameters_semiEllipse (rd : String → Option Num) (c : Cfg) (start end_ h : Num)
+    (hrd : Py.W5Y.ReadsBack rd c (.shape [start, end_] (some h))) :
+    ∃ σp text σc, Gen.Code.SemiEllipse_parameters.run c start end_ h {} = .ok σp ∧ σp.ret = some text ∧
+      Gen.Code.SemiEllipse_configure.run rd text {} = .ok σc ∧
+      σc.self_start = rnd c.d start ∧ σc.self_end = rnd c.d end_ ∧
+      σc.self_height = canonH (keepHeight c) c h :=
+  Py.W5Y.configure_parameters_semiEllipse rd c start end_ h hrd
+
+/-- `Sigmoid.__init__` stores every argument in the attribute of the same name (and does not raise) -/
+theorem code_sigmoidInit (name : String) (inflection slope height : X Rat) (σ0 : Gen.Code.Sigmoid_init.S) :
+    ∃ σ, Gen.Code.Sigmoid_init.run name inflection slope height σ0 = .ok σ ∧ σ.self_name = name ∧
+      σ.self_inflection = inflection ∧ σ.self_slope = slope ∧ σ.self_height = height :=
+  Py.W5Y.code_sigmoidInit name inflection slope height σ0
+
+/-- `Sigmoid.parameters`: the 2 parameters in the order of the constructor, then the height (under the rule of `Term._parameters`) -/
+theorem code_sigmoidParameters (c : Cfg) (inflection slope h : Num) :
+    ∃ σ, Gen.Code.Sigmoid_parameters.run c inflection slope h {} = .ok σ ∧
+      σ.ret = some (Py.Fll.termParameters c (.shape [inflection, slope] (some h))) :=
+  Py.W5Y.code_sigmoidParameters c inflection slope h
+
+/-- `Sigmoid.configure`: 2 parameters and the optional height, assigned in this order -/
+theorem code_sigmoidConfigure (rd : String → Option Num) (parameters : String) :
+    match numsOf (Py.FllIn.toks rd parameters) >>= parseShape 2 true with
+    | .error e => Gen.Code.Sigmoid_configure.run rd parameters {} = .error e.toPy
+    | .ok b => ∃ σ, Gen.Code.Sigmoid_configure.run rd parameters {} = .ok σ ∧
+        b = .shape [σ.self_inflection, σ.self_slope] (some σ.self_height) :=
+  Py.W5Y.code_sigmoidConfigure rd parameters
+
+/-- round trip of `Sigmoid`: `configure` of a fresh object on the text `parameters()` prints gives the printed values -/
+theorem configure_parameters_sigmoid (rd : String → Option Num) (c : Cfg) (inflection slope h : Num)
+    (hrd : Py.W5Y.ReadsBack rd c (.shape [inflection, slope] (some h))) :
+    ∃ σp text σc, Gen.Code.Sigmoid_parameters.run c inflection slope h {} = .ok σp ∧ σp.ret = some text ∧
+      Gen.Code.Sigmoid_configure.run rd text {} = .ok σc ∧
+      σc.self_inflection = rnd c.d inflection ∧ σc.self_slope = rnd c.d slope ∧
+      σc.self_height = canonH (keepHeight c) c h :=
+  Py.W5Y.configure_parameters_sigmoid rd c inflection slope h hrd
+
+/-- `SigmoidDifference.__init__` stores every argument in the attribute of the same name (and does not raise) -/
+theorem code_sigmoidDifferenceInit (name : String) (left rising falling right height : X Rat) (σ0 : Gen.Code.SigmoidDifference_init.S) :
+    ∃ σ, Gen.Code.SigmoidDifference_init.run name left rising falling right height σ0 = .ok σ ∧ σ.self_name = name ∧
+      σ.self_left = left ∧ σ.self_rising = rising ∧ σ.self_falling = falling ∧ σ.self_right = right ∧ σ.self_height = height :=
+  Py.W5Y.code_sigmoidDifferenceInit name left rising falling right height σ0
+
+/-- `SigmoidDifference.parameters`: the 4 parameters in the order of the constructor, then the height (under the rule of `Term._parameters`) -/
+theorem code_sigmoidDifferenceParameters (c : Cfg) (left rising falling right h : Num) :
+    ∃ σ, Gen.Code.SigmoidDifference_parameters.run c left rising falling right h {} = .ok σ ∧
+      σ.ret = some (Py.Fll.termParameters c (.shape [left, rising, falling, right] (some h))) :=
+  Py.W5Y.code_sigmoidDifferenceParameters c left rising falling right h
+
+/-- `SigmoidDifference.configure`: 4 parameters and the optional height, assigned in this order -/
+theorem code_sigmoidDifferenceConfigure (rd : String → Option Num) (parameters : String) :
+    match numsOf (Py.FllIn.toks rd parameters) >>= parseShape 4 true with
+    | .error e => Gen.Code.SigmoidDifference_configure.run rd parameters {} = .error e.toPy
+    | .ok b => ∃ σ, Gen.Code.SigmoidDifference_configure.run rd parameters {} = .ok σ ∧
+        b = .shape [σ.self_left, σ.self_rising, σ.self_falling, σ.self_right] (some σ.self_height) :=
+  Py.W5Y.code_sigmoidDifferenceConfigure rd parameters
+
+/-- round trip of `SigmoidDifference`: `configure` of a fresh object on the text `parameters()` prints gives the printed values -/
+theorem configure_parameters_sigmoidDifference (rd : String → Option Num) (c : Cfg) (left rising falling right h : Num)
+    (hrd : Py.W5Y.ReadsBack rd c (.shape [left, rising, falling, right] (some h))) :
+    ∃ σp text σc, Gen.Code.SigmoidDifference_parameters.run c left rising falling right h {} = .ok σp ∧ σp.ret = some text ∧
+      Gen.Code.SigmoidDifference_configure.run rd text {} = .ok σc ∧
+      σc.self_left = rnd c.d left ∧ σc.self_rising = rnd c.d rising ∧ σc.self_falling = rnd c.d falling ∧ σc.self_right = rnd c.d right ∧
+      σc.self_height = canonH (keepHeight c) c h :=
+  Py.W5Y.configure_parameters_sigmoidDifference rd c left rising falling right h hrd
+
+/-- `SigmoidProduct.__init__` stores every argument in the attribute of the same name (and does not raise) -/
+theorem code_sigmoidProductInit (name : String) (left rising falling right height : X Rat) (σ0 : Gen.Code.SigmoidProduct_init.S) :
+    ∃ σ, Gen.Code.SigmoidProduct_init.run name left rising falling right height σ0 = .ok σ ∧ σ.self_name = name ∧
+      σ.self_left = left ∧ σ.self_rising = rising ∧ σ.self_falling = falling ∧ σ.self_right = right ∧ σ.self_height = height :=
+  Py.W5Y.code_sigmoidProductInit name left rising falling right height σ0
+
+/-- `SigmoidProduct.parameters`: the 4 parameters in the order of the constructor, then the height (under the rule of `Term._parameters`) -/
+theorem code_sigmoidProductParameters (c : Cfg) (left rising falling right h : Num) :
+    ∃ σ, Gen.Code.SigmoidProduct_parameters.run c left rising falling right h {} = .ok σ ∧
+      σ.ret = some (Py.Fll.termParameters c (.shape [left, rising, falling, right] (some h))) :=
+  Py.W5Y.code_sigmoidProductParameters c left rising falling right h
+
+/-- `SigmoidProduct.configure`: 4 parameters and the optional height, assigned in this order -/
+theorem code_sigmoidProductConfigure (rd : String → Option Num) (parameters : String) :
+    match numsOf (Py.FllIn.toks rd parameters) >>= parseShape 4 true with
+    | .error e => Gen.Code.SigmoidProduct_configure.run rd parameters {} = .error e.toPy
+    | .ok b => ∃ σ, Gen.Code.SigmoidProduct_configure.run rd parameters {} = .ok σ ∧
+        b = .shape [σ.self_left, σ.self_rising, σ.self_falling, σ.self_right] (some σ.self_height) :=
+  Py.W5Y.code_sigmoidProductConfigure rd parameters
+
+/-- round trip of `SigmoidProduct`: `configure` of a fresh object on the text `parameters()` prints gives the printed values -/
+theorem configure_parameters_sigmoidProduct (rd : String → Option Num) (c : Cfg) (left rising falling right h : Num)
+    (hrd : Py.W5Y.ReadsBack rd c (.shape [left, rising, falling, right] (some h))) :
+    ∃ σp text σc, Gen.Code.SigmoidProduct_parameters.run c left rising falling right h {} = .ok σp ∧ σp.ret = some text ∧
+      Gen.Code.SigmoidProduct_configure.run rd text {} = .ok σc ∧
+      σc.self_left = rnd c.d left ∧ σc.self_rising = rnd c.d rising ∧ σc.self_falling = rnd c.d falling ∧ σc.self_right = rnd c.d right ∧
+      σc.self_height = canonH (keepHeight c) c h :=
+  Py.W5Y.configure_parameters_sigmoidProduct rd c left rising falling right h hrd
+
+/-- `Spike.__init__` stores every argument in the attribute of the same name (and does not raise) -/
+theorem code_spikeInit (name : String) (center width height : X Rat) (σ0 : Gen.Code.Spike_init.S) :
+    ∃ σ, Gen.Code.Spike_init.run name center width height σ0 = .ok σ ∧ σ.self_name = name ∧
+      σ.self_center = center ∧ σ.self_width = width ∧ σ.self_height = height :=
+  Py.W5Y.code_spikeInit name center width height σ0
+
+/-- `Spike.parameters`: the 2 parameters in the order of the constructor, then the height (under the rule of `Term._parameters`) -/
+theorem code_spikeParameters (c : Cfg) (center width h : Num) :
+    ∃ σ, Gen.Code.Spike_parameters.run c center width h {} = .ok σ ∧
+      σ.ret = some (Py.Fll.termParameters c (.shape [center, width] (some h))) :=
+  Py.W5Y.code_spikeParameters c center width h
+
+/-- `Spike.configure`: 2 parameters and the optional height, assigned in this order -/
+theorem code_spikeConfigure (rd : String → Option Num) (parameters : String) :
+    match numsOf (Py.FllIn.toks rd parameters) >>= parseShape 2 true with
+    | .error e => Gen.Code.Spike_configure.run rd parameters {} = .error e.toPy
+    | .ok b => ∃ σ, Gen.Code.Spike_configure.run rd parameters {} = .ok σ ∧
+        b = .shape [σ.self_center, σ.self_width] (some σ.self_height) :=
+  Py.W5Y.code_spikeConfigure rd parameters
+
+/-- round trip of `Spike`: `configure` of a fresh object on the text `parameters()` prints gives the printed values -/
+theorem configure_parameters_spike (rd : String → Option Num) (c : Cfg) (center width h : Num)
+    (hrd : Py.W5Y.ReadsBack rd c (.shape [center, width] (some h))) :
+    ∃ σp text σc, Gen.Code.Spike_parameters.run c center width h {} = .ok σp ∧ σp.ret = some text ∧
+      Gen.Code.Spike_configure.run rd text {} = .ok σc ∧
+      σc.self_center = rnd c.d center ∧ σc.self_width = rnd c.d width ∧
+      σc.self_height = canonH (keepHeight c) c h :=
+  Py.W5Y.configure_parameters_spike rd c center width h hrd
+
+/-- `SShape.__init__` stores every argument in the attribute of the same name (and does not raise) -/
+theorem code_sShapeInit (name : String) (start end_ height : X Rat) (σ0 : Gen.Code.SShape_init.S) :
+    ∃ σ, Gen.Code.SShape_init.run name start end_ height σ0 = .ok σ ∧ σ.self_name = name ∧
+      σ.self_start = start ∧ σ.self_end = end_ ∧ σ.self_height = height :=
+  Py.W5Y.code_sShapeInit name start end_ height σ0
+
+/-- `SShape.parameters`: the 2 parameters in the order of the constructor, then the height (under the rule of `Term._parameters`) -/
+theorem code_sShapeParameters (c : Cfg) (start end_ h : Num) :
+    ∃ σ, Gen.Code.SShape_parameters.run c start end_ h {} = .ok σ ∧
+      σ.ret = some (Py.Fll.termParameters c (.shape [start, end_] (some h))) :=
+  Py.W5Y.code_sShapeParameters c start end_ h
+
+/-- `SShape.configure`: 2 parameters and the optional height, assigned in this order -/
+theorem code_sShapeConfigure (rd : String → Option Num) (parameters : String) :
+    match numsOf (Py.FllIn.toks rd parameters) >>= parseShape 2 true with
+    | .error e => Gen.Code.SShape_configure.run rd parameters {} = .error e.toPy
+    | .ok b => ∃ σ, Gen.Code.SShape_configure.run rd parameters {} = .ok σ ∧
+        b = .shape [σ.self_start, σ.self_end] (some σ.self_height) :=
+  Py.W5Y.code_sShapeConfigure rd parameters
+
+/-- round trip of `SShape`: `configure` of a fresh object on the text `parameters()` prints gives the printed values -/
+theorem configure_parameters_sShape (rd : String → Option Num) (c : Cfg) (start end_ h : Num)
+    (hrd : Py.W5Y.ReadsBack rd c (.shape [start, end_] (some h))) :
+    ∃ σp text σc, Gen.Code.SShape_parameters.run c start end_ h {} = .ok σp ∧ σp.ret = some text ∧
+      Gen.Code.SShape_configure.run rd text {} = .ok σc ∧
+      σc.self_start = rnd c.d start ∧ σc.self_end = rnd c.d end_ ∧
+      σc.self_height = canonH (keepHeight c) c h :=
+  Py.W5Y.configure_parameters_sShape rd c start end_ h hrd
+
+/-- `Trapezoid.__init__`: name and height as given; the vertices are `trapezoidVertices` (with `top_right` and `bottom_right` NaN the top is computed) -/
+theorem code_trapezoidInit (name : String) (bottom_left top_left top_right bottom_right height : X Rat) (σ0 : Gen.Code.Trapezoid_init.S) :
+    ∃ σ, Gen.Code.Trapezoid_init.run name bottom_left top_left top_right bottom_right height σ0 = .ok σ ∧ σ.self_name = name ∧
+      σ.self_height = height ∧
+      (σ.self_bottom_left, σ.self_top_left, σ.self_top_right, σ.self_bottom_right) =
+        Py.W5Y.trapezoidVertices bottom_left top_left top_right bottom_right :=
+  Py.W5Y.code_trapezoidInit name bottom_left top_left top_right bottom_right height σ0
+
+/-- `Trapezoid.parameters`: the 4 parameters in the order of the constructor, then the height (under the rule of `Term._parameters`) -/
+theorem code_trapezoidParameters (c : Cfg) (bottom_left top_left top_right bottom_right h : Num) :
+    ∃ σ, Gen.Code.Trapezoid_parameters.run c bottom_left top_left top_right bottom_right h {} = .ok σ ∧
+      σ.ret = some (Py.Fll.termParameters c (.shape [bottom_left, top_left, top_right, bottom_right] (some h))) :=
+  Py.W5Y.code_trapezoidParameters c bottom_left top_left top_right bottom_right h
+
+/-- round trip of `Trapezoid`: `configure` of a fresh object on the text `parameters()` prints gives the printed values -/
+theorem configure_parameters_trapezoid (rd : String → Option Num) (c : Cfg) (bottom_left top_left top_right bottom_right h : Num)
+    (hrd : Py.W5Y.ReadsBack rd c (.shape [bottom_left, top_left, top_right, bottom_right] (some h))) :
+    ∃ σp text σc, Gen.Code.Trapezoid_parameters.run c bottom_left top_left top_right bottom_right h {} = .ok σp ∧ σp.ret = some text ∧
+      Gen.Code.Trapezoid_configure.run rd text {} = .ok σc ∧
+      σc.self_bottom_left = rnd c.d bottom_left ∧ σc.self_top_left = rnd c.d top_left ∧ σc.self_top_right = rnd c.d top_right ∧ σc.self_bottom_right = rnd c.d bottom_right ∧
+      σc.self_height = canonH (keepHeight c) c h :=
+  Py.W5Y.configure_parameters_trapezoid rd c bottom_left top_left top_right bottom_right h hrd
+
+/-- `Triangle.__init__`: name and height as given; the vertices are `triangleVertices` (with `right` NaN the top is computed) -/
+theorem code_triangleInit (name : String) (left top right height : X Rat) (σ0 : Gen.Code.Triangle_init.S) :
+    ∃ σ, Gen.Code.Triangle_init.run name left top right height σ0 = .ok σ ∧ σ.self_name = name ∧ σ.self_height = height ∧
+      (σ.self_left, σ.self_top, σ.self_right) = Py.W5Y.triangleVertices left top right :=
+  Py.W5Y.code_triangleInit name left top right height σ0
+
+/-- round trip of `Triangle`: `configure` of a fresh object on the text `parameters()` prints gives the printed values -/
+theorem configure_parameters_triangle (rd : String → Option Num) (c : Cfg) (left top right h : Num)
+    (hrd : Py.W5Y.ReadsBack rd c (.shape [left, top, right] (some h))) :
+    ∃ σp text σc, Gen.Code.Triangle_parameters.run c left top right h {} = .ok σp ∧ σp.ret = some text ∧
+      Gen.Code.Triangle_configure.run rd text {} = .ok σc ∧
+      σc.self_left = rnd c.d left ∧ σc.self_top = rnd c.d top ∧ σc.self_right = rnd c.d right ∧
+      σc.self_height = canonH (keepHeight c) c h :=
+  Py.W5Y.configure_parameters_triangle rd c left top right h hrd
+
+/-- `ZShape.__init__` stores every argument in the attribute of the same name (and does not raise) -/
+theorem code_zShapeInit (name : String) (start end_ height : X Rat) (σ0 : Gen.Code.ZShape_init.S) :
+    ∃ σ, Gen.Code.ZShape_init.run name start end_ height σ0 = .ok σ ∧ σ.self_name = name ∧
+      σ.self_start = start ∧ σ.self_end = end_ ∧ σ.self_height = height :=
+  Py.W5Y.code_zShapeInit name start end_ height σ0
+
+/-- `ZShape.parameters`: the 2 parameters in the order of the constructor, then the height (under the rule of `Term._parameters`) -/
+theorem code_zShapeParameters (c : Cfg) (start end_ h : Num) :
+    ∃ σ, Gen.Code.ZShape_parameters.run c start end_ h {} = .ok σ ∧
+      σ.ret = some (Py.Fll.termParameters c (.shape [start, end_] (some h))) :=
+  Py.W5Y.code_zShapeParameters c start end_ h
+
+/-- `ZShape.configure`: 2 parameters and the optional height, assigned in this order -/
+theorem code_zShapeConfigure (rd : String → Option Num) (parameters : String) :
+    match numsOf (Py.FllIn.toks rd parameters) >>= parseShape 2 true with
+    | .error e => Gen.Code.ZShape_configure.run rd parameters {} = .error e.toPy
+    | .ok b => ∃ σ, Gen.Code.ZShape_configure.run rd parameters {} = .ok σ ∧
+        b = .shape [σ.self_start, σ.self_end] (some σ.self_height) :=
+  Py.W5Y.code_zShapeConfigure rd parameters
+
+/-- round trip of `ZShape`: `configure` of a fresh object on the text `parameters()` prints gives the printed values -/
+theorem configure_parameters_zShape (rd : String → Option Num) (c : Cfg) (start end_ h : Num)
+    (hrd : Py.W5Y.ReadsBack rd c (.shape [start, end_] (some h))) :
+    ∃ σp text σc, Gen.Code.ZShape_parameters.run c start end_ h {} = .ok σp ∧ σp.ret = some text ∧
+      Gen.Code.ZShape_configure.run rd text {} = .ok σc ∧
+      σc.self_start = rnd c.d start ∧ σc.self_end = rnd c.d end_ ∧
+      σc.self_height = canonH (keepHeight c) c h :=
+  Py.W5Y.configure_parameters_zShape rd c start end_ h hrd
+
+/-- the defaults of the signatures of the nineteen constructors (regenerated with the code): the empty name, NaN for
+    every parameter, height 1 – the object the factory builds, which the model's `configure cls []` describes -/
+theorem shape_defaults :
+    (Gen.Code.Arc_init.dflt_name, Gen.Code.Arc_init.dflt_start, Gen.Code.Arc_init.dflt_end_, Gen.Code.Arc_init.dflt_height) = ("", .nan, .nan, .fin 1) ∧
+    (Gen.Code.Bell_init.dflt_name, Gen.Code.Bell_init.dflt_center, Gen.Code.Bell_init.dflt_width, Gen.Code.Bell_init.dflt_slope, Gen.Code.Bell_init.dflt_height) = ("", .nan, .nan, .nan, .fin 1) ∧
+    (Gen.Code.Binary_init.dflt_name, Gen.Code.Binary_init.dflt_start, Gen.Code.Binary_init.dflt_direction, Gen.Code.Binary_init.dflt_height) = ("", .nan, .nan, .fin 1) ∧
+    (Gen.Code.Concave_init.dflt_name, Gen.Code.Concave_init.dflt_inflection, Gen.Code.Concave_init.dflt_end_, Gen.Code.Concave_init.dflt_height) = ("", .nan, .nan, .fin 1) ∧
+    (Gen.Code.Cosine_init.dflt_name, Gen.Code.Cosine_init.dflt_center, Gen.Code.Cosine_init.dflt_width, Gen.Code.Cosine_init.dflt_height) = ("", .nan, .nan, .fin 1) ∧
+    (Gen.Code.Gaussian_init.dflt_name, Gen.Code.Gaussian_init.dflt_mean, Gen.Code.Gaussian_init.dflt_standard_deviation, Gen.Code.Gaussian_init.dflt_height) = ("", .nan, .nan, .fin 1) ∧
+    (Gen.Code.GaussianProduct_init.dflt_name, Gen.Code.GaussianProduct_init.dflt_mean_a, Gen.Code.GaussianProduct_init.dflt_standard_deviation_a, Gen.Code.GaussianProduct_init.dflt_mean_b, Gen.Code.GaussianProduct_init.dflt_standard_deviation_b, Gen.Code.GaussianProduct_init.dflt_height) = ("", .nan, .nan, .nan, .nan, .fin 1) ∧
+    (Gen.Code.PiShape_init.dflt_name, Gen.Code.PiShape_init.dflt_bottom_left, Gen.Code.PiShape_init.dflt_top_left, Gen.Code.PiShape_init.dflt_top_right, Gen.Code.PiShape_init.dflt_bottom_right, Gen.Code.PiShape_init.dflt_height) = ("", .nan, .nan, .nan, .nan, .fin 1) ∧
+    (Gen.Code.Ramp_init.dflt_name, Gen.Code.Ramp_init.dflt_start, Gen.Code.Ramp_init.dflt_end_, Gen.Code.Ramp_init.dflt_height) = ("", .nan, .nan, .fin 1) ∧
+    (Gen.Code.Rectangle_init.dflt_name, Gen.Code.Rectangle_init.dflt_start, Gen.Code.Rectangle_init.dflt_end_, Gen.Code.Rectangle_init.dflt_height) = ("", .nan, .nan, .fin 1) ∧
+    (Gen.Code.SemiEllipse_init.dflt_name, Gen.Code.SemiEllipse_init.dflt_start, Gen.Code.SemiEllipse_init.dflt_end_, Gen.Code.SemiEllipse_init.dflt_height) = ("", .nan, .nan, .fin 1) ∧
+    (Gen.Code.Sigmoid_init.dflt_name, Gen.Code.Sigmoid_init.dflt_inflection, Gen.Code.Sigmoid_init.dflt_slope, Gen.Code.Sigmoid_init.dflt_height) = ("", .nan, .nan, .fin 1) ∧
+    (Gen.Code.SigmoidDifference_init.dflt_name, Gen.Code.SigmoidDifference_init.dflt_left, Gen.Code.SigmoidDifference_init.dflt_rising, Gen.Code.SigmoidDifference_init.dflt_falling, Gen.Code.SigmoidDifference_init.dflt_right, Gen.Code.SigmoidDifference_init.dflt_height) = ("", .nan, .nan, .nan, .nan, .fin 1) ∧
+    (Gen.Code.SigmoidProduct_init.dflt_name, Gen.Code.SigmoidProduct_init.dflt_left, Gen.Code.SigmoidProduct_init.dflt_rising, Gen.Code.SigmoidProduct_init.dflt_falling, Gen.Code.SigmoidProduct_init.dflt_right, Gen.Code.SigmoidProduct_init.dflt_height) = ("", .nan, .nan, .nan, .nan, .fin 1) ∧
+    (Gen.Code.Spike_init.dflt_name, Gen.Code.Spike_init.dflt_center, Gen.Code.Spike_init.dflt_width, Gen.Code.Spike_init.dflt_height) = ("", .nan, .nan, .fin 1) ∧
+    (Gen.Code.SShape_init.dflt_name, Gen.Code.SShape_init.dflt_start, Gen.Code.SShape_init.dflt_end_, Gen.Code.SShape_init.dflt_height) = ("", .nan, .nan, .fin 1) ∧
+    (Gen.Code.Trapezoid_init.dflt_name, Gen.Code.Trapezoid_init.dflt_bottom_left, Gen.Code.Trapezoid_init.dflt_top_left, Gen.Code.Trapezoid_init.dflt_top_right, Gen.Code.Trapezoid_init.dflt_bottom_right, Gen.Code.Trapezoid_init.dflt_height) = ("", .nan, .nan, .nan, .nan, .fin 1) ∧
+    (Gen.Code.Triangle_init.dflt_name, Gen.Code.Triangle_init.dflt_left, Gen.Code.Triangle_init.dflt_top, Gen.Code.Triangle_init.dflt_right, Gen.Code.Triangle_init.dflt_height) = ("", .nan, .nan, .nan, .fin 1) ∧
+    (Gen.Code.ZShape_init.dflt_name, Gen.Code.ZShape_init.dflt_start, Gen.Code.ZShape_init.dflt_end_, Gen.Code.ZShape_init.dflt_height) = ("", .nan, .nan, .fin 1) :=
+  Py.W5Y.shape_defaults
+
+/-! ## Tie A: the activation methods – `__init__`, `parameters`, `configure` and the round trip
+
+`First`, `Last`, `Highest`, `Lowest`, `Threshold` (`Gen/CodeWave5YAct.lean`).  `configure("")` leaves the object as it is;
+for any other text the words are unpacked (white space only: `ValueError`) and read with `int` / `to_float` /
+`Threshold.Comparator(text)` – the readers `rdi`, `rd` are parameters, the comparator look-up is by value in the
+regenerated enumeration (`Py.W5Y.symbols`; the operator of each symbol is `C08.code_comparator`).  The result is the
+model's `activParams` on the tokens of the words.  The model's "no tokens ↦ defaults" is the importer's "no parameters ↦
+`configure` is not called": the defaults are those of the signatures (`activation_defaults`). -/
+
+section activationTie
+open Gen.Code Py.W5Y Py.FllIn
+
+theorem code_firstInit (rules : Int) (threshold : Num) (σ0 : First_init.S) :
+    ∃ σ, First_init.run rules threshold σ0 = .ok σ ∧ σ.self_rules = rules ∧ σ.self_threshold = threshold :=
+  Py.W5Y.code_firstInit rules threshold σ0
+
+theorem code_lastInit (rules : Int) (threshold : Num) (σ0 : Last_init.S) :
+    ∃ σ, Last_init.run rules threshold σ0 = .ok σ ∧ σ.self_rules = rules ∧ σ.self_threshold = threshold :=
+  Py.W5Y.code_lastInit rules threshold σ0
+
+theorem code_highestInit (rules : Int) (σ0 : Highest_init.S) :
+    ∃ σ, Highest_init.run rules σ0 = .ok σ ∧ σ.self_rules = rules :=
+  Py.W5Y.code_highestInit rules σ0
+
+theorem code_lowestInit (rules : Int) (σ0 : Lowest_init.S) :
+    ∃ σ, Lowest_init.run rules σ0 = .ok σ ∧ σ.self_rules = rules :=
+  Py.W5Y.code_lowestInit rules σ0
+
+/-- `Threshold.__init__`: a string is looked up in the enumeration (`ValueError` when it is no symbol), a member is
+    stored as it is; the threshold is stored -/
+theorem code_thresholdInit (comparator : CmpArg) (threshold : Num) (σ0 : Threshold_init.S) :
+    match comparatorOf comparator with
+    | .error e => Threshold_init.run comparator threshold σ0 = .error e
+    | .ok m => ∃ σ, Threshold_init.run comparator threshold σ0 = .ok σ ∧ σ.self_comparator = m ∧
+        σ.self_threshold = threshold :=
+  Py.W5Y.code_thresholdInit comparator threshold σ0
+
+/-- the defaults of the signatures are the parameters of the model's default activation methods (what the importer
+    builds when the line has no parameters) -/
+theorem activation_defaults (cls : String) :
+    activParams cls .nth [] = .ok (.nth cls First_init.dflt_rules First_init.dflt_threshold) ∧
+    activParams cls .nth [] = .ok (.nth cls Last_init.dflt_rules Last_init.dflt_threshold) ∧
+    activParams cls .best [] = .ok (.best cls Highest_init.dflt_rules) ∧
+    activParams cls .best [] = .ok (.best cls Lowest_init.dflt_rules) ∧
+    Threshold_init.dflt_comparator = .member ">" ∧
+    activParams cls .threshold [] = .ok (.threshold cls ">" Threshold_init.dflt_threshold) :=
+  Py.W5Y.activation_defaults cls
+
+theorem code_firstParameters (cls : String) (c : Cfg) (rules : Int) (threshold : Num) :
+    ∃ σ, First_parameters.run c rules threshold {} = .ok σ ∧
+      σ.ret = some (Py.Fll.activParameters c (.nth cls rules threshold)) :=
+  Py.W5Y.code_firstParameters cls c rules threshold
+
+theorem code_lastParameters (cls : String) (c : Cfg) (rules : Int) (threshold : Num) :
+    ∃ σ, Last_parameters.run c rules threshold {} = .ok σ ∧
+      σ.ret = some (Py.Fll.activParameters c (.nth cls rules threshold)) :=
+  Py.W5Y.code_lastParameters cls c rules threshold
+
+theorem code_highestParameters (cls : String) (c : Cfg) (rules : Int) :
+    ∃ σ, Highest_parameters.run c rules {} = .ok σ ∧ σ.ret = some (Py.Fll.activParameters c (.best cls rules)) :=
+  Py.W5Y.code_highestParameters cls c rules
+
+theorem code_lowestParameters (cls : String) (c : Cfg) (rules : Int) :
+    ∃ σ, Lowest_parameters.run c rules {} = .ok σ ∧ σ.ret = some (Py.Fll.activParameters c (.best cls rules)) :=
+  Py.W5Y.code_lowestParameters cls c rules
+
+theorem code_thresholdParameters (cls : String) (c : Cfg) (comparator : String) (threshold : Num) :
+    ∃ σ, Threshold_parameters.run c comparator threshold {} = .ok σ ∧
+      σ.ret = some (Py.Fll.activParameters c (.threshold cls comparator threshold)) :=
+  Py.W5Y.code_thresholdParameters cls c comparator threshold
+
+theorem code_firstConfigure (cls : String) (rdi : String → Option Int) (rd : String → Option Num) (parameters : String)
+    (σ0 : First_configure.S) :
+    if parameters = "" then First_configure.run rdi rd parameters σ0 = .ok σ0
+    else if Py.split parameters = [] then First_configure.run rdi rd parameters σ0 = .error .value
+    else match activParams cls .nth (activToks rdi rd (Py.split parameters)) with
+      | .error e => First_configure.run rdi rd parameters σ0 = .error e.toPy
+      | .ok a => ∃ σ, First_configure.run rdi rd parameters σ0 = .ok σ ∧ a = .nth cls σ.self_rules σ.self_threshold :=
+  Py.W5Y.code_firstConfigure cls rdi rd parameters σ0
+
+theorem code_lastConfigure (cls : String) (rdi : String → Option Int) (rd : String → Option Num) (parameters : String)
+    (σ0 : Last_configure.S) :
+    if parameters = "" then Last_configure.run rdi rd parameters σ0 = .ok σ0
+    else if Py.split parameters = [] then Last_configure.run rdi rd parameters σ0 = .error .value
+    else match activParams cls .nth (activToks rdi rd (Py.split parameters)) with
+      | .error e => Last_configure.run rdi rd parameters σ0 = .error e.toPy
+      | .ok a => ∃ σ, Last_configure.run rdi rd parameters σ0 = .ok σ ∧ a = .nth cls σ.self_rules σ.self_threshold :=
+  Py.W5Y.code_lastConfigure cls rdi rd parameters σ0
+
+/-- the shared script of `Highest.configure` / `Lowest.configure`: `if parameters: self.rules = int(parameters)` -/
+theorem code_highestConfigure (cls : String) (rdi : String → Option Int) (parameters : String) (σ0 : Highest_configure.S) :
+    if parameters = "" then Highest_configure.run rdi parameters σ0 = .ok σ0
+    else match activParams cls .best (match rdi parameters with | some z => [Tok.i z] | none => [Tok.w parameters]) with
+      | .error e => Highest_configure.run rdi parameters σ0 = .error e.toPy
+      | .ok a => ∃ σ, Highest_configure.run rdi parameters σ0 = .ok σ ∧ a = .best cls σ.self_rules :=
+  Py.W5Y.code_highestConfigure cls rdi parameters σ0
+
+theorem code_lowestConfigure (cls : String) (rdi : String → Option Int) (parameters : String) (σ0 : Lowest_configure.S) :
+    if parameters = "" then Lowest_configure.run rdi parameters σ0 = .ok σ0
+    else match activParams cls .best (match rdi parameters with | some z => [Tok.i z] | none => [Tok.w parameters]) with
+      | .error e => Lowest_configure.run rdi parameters σ0 = .error e.toPy
+      | .ok a => ∃ σ, Lowest_configure.run rdi parameters σ0 = .ok σ ∧ a = .best cls σ.self_rules :=
+  Py.W5Y.code_lowestConfigure cls rdi parameters σ0
+
+theorem code_thresholdConfigure (cls : String) (rd : String → Option Num) (parameters : String)
+    (σ0 : Threshold_configure.S) :
+    if parameters = "" then Threshold_configure.run rd parameters σ0 = .ok σ0
+    else if Py.split parameters = [] then Threshold_configure.run rd parameters σ0 = .error .value
+    else match activParams cls .threshold (thresholdToks rd (Py.split parameters)) with
+      | .error e => Threshold_configure.run rd parameters σ0 = .error e.toPy
+      | .ok a => ∃ σ, Threshold_configure.run rd parameters σ0 = .ok σ ∧
+          a = .threshold cls σ.self_comparator σ.self_threshold :=
+  Py.W5Y.code_thresholdConfigure cls rd parameters σ0
+
+theorem configure_parameters_first (cls : String) (rdi : String → Option Int) (rd : String → Option Num) (c : Cfg)
+    (rules : Int) (threshold : Num) (σ0 : First_configure.S)
+    (hrd : ReadsBackActiv rdi rd c (.nth cls rules threshold)) :
+    ∃ σc, First_configure.run rdi rd (Py.Fll.activParameters c (.nth cls rules threshold)) σ0 = .ok σc ∧
+      σc.self_rules = rules ∧ σc.self_threshold = rnd c.d threshold :=
+  Py.W5Y.configure_parameters_first cls rdi rd c rules threshold σ0 hrd
+
+theorem configure_parameters_last (cls : String) (rdi : String → Option Int) (rd : String → Option Num) (c : Cfg)
+    (rules : Int) (threshold : Num) (σ0 : Last_configure.S)
+    (hrd : ReadsBackActiv rdi rd c (.nth cls rules threshold)) :
+    ∃ σc, Last_configure.run rdi rd (Py.Fll.activParameters c (.nth cls rules threshold)) σ0 = .ok σc ∧
+      σc.self_rules = rules ∧ σc.self_threshold = rnd c.d threshold :=
+  Py.W5Y.configure_parameters_last cls rdi rd c rules threshold σ0 hrd
+
+theorem configure_parameters_threshold (cls : String) (rd : String → Option Num) (c : Cfg)
+    (comparator : String) (threshold : Num) (σ0 : Threshold_configure.S) (hc : comparator ∈ comparatorSymbols)
+    (hrd : ReadsBackThreshold rd c (.threshold cls comparator threshold)) :
+    ∃ σc, Threshold_configure.run rd (Py.Fll.activParameters c (.threshold cls comparator threshold)) σ0 = .ok σc ∧
+      σc.self_comparator = comparator ∧ σc.self_threshold = rnd c.d threshold :=
+  Py.W5Y.configure_parameters_threshold cls rd c comparator threshold σ0 hc hrd
+
+/-- `Highest` / `Lowest`: the text is the printed integer; `int` reads it back -/
+theorem configure_parameters_highest (cls : String) (rdi : String → Option Int) (c : Cfg) (rules : Int)
+    (σ0 : Highest_configure.S) (hrd : rdi (toString rules) = some rules) :
+    ∃ σc, Highest_configure.run rdi (Py.Fll.activParameters c (.best cls rules)) σ0 = .ok σc ∧ σc.self_rules = rules :=
+  Py.W5Y.configure_parameters_highest cls rdi c rules σ0 hrd
+
+theorem configure_parameters_lowest (cls : String) (rdi : String → Option Int) (c : Cfg) (rules : Int)
+    (σ0 : Lowest_configure.S) (hrd : rdi (toString rules) = some rules) :
+    ∃ σc, Lowest_configure.run rdi (Py.Fll.activParameters c (.best cls rules)) σ0 = .ok σc ∧ σc.self_rules = rules :=
+  Py.W5Y.configure_parameters_lowest cls rdi c rules σ0 hrd
+
+/-- the symbols `Threshold.Comparator(text)` accepts are the six of the regenerated enumeration; the lexer of the text
+    layer reads each of them as a word (neither `int` nor `float` reads one), so the tokens `thresholdToks` are the
+    tokens `activParamToks` of the importer's text layer on such a text -/
+theorem comparator_symbols_are_words :
+    symbols = ["<", "<=", "==", "!=", ">=", ">"] ∧ ∀ s ∈ symbols, intTokOf s = .w s :=
+  Py.W5Y.comparator_symbols_are_words 
+
+/-- `Threshold.Comparator(text)`: the member whose value is the text – exactly for the six symbols of
+    `Spec.Activation.Comparator.ofSymbol`, whose operators `C08.code_comparator` ties; `ValueError` for any other text -/
+theorem comparatorOfText_spec (s : String) :
+    match Spec.Activation.Comparator.ofSymbol s with
+    | some _ => comparatorOfText s = .ok s
+    | none => comparatorOfText s = .error .value :=
+  Py.W5Y.comparatorOfText_spec s
+
+end activationTie
+
+/-! ### the hypotheses of the round trips are satisfiable: with the readers of the driver's text layer (`parseNum`,
+`parseInt`, `Py.split`) the printed parameters are read back as the tokens that were printed -/
+example : Py.W5Y.ReadsBack parseNum ⟨3, 1 / 10000⟩ (.shape [.fin 1, .fin (5 / 2)] (some (.fin (1 / 2)))) := by
+  unfold Py.W5Y.ReadsBack; decide +kernel
+example : Py.W5Y.ReadsBack parseNum ⟨3, 1 / 10000⟩ (.shape [.ninf, .fin (-5 / 2), .nan] (some one)) := by
+  unfold Py.W5Y.ReadsBack; decide +kernel
+example : Py.W5Y.ReadsBackActiv parseInt parseNum ⟨3, 1 / 10000⟩ (.nth "First" 3 (.fin (1 / 4))) := by
+  unfold Py.W5Y.ReadsBackActiv; decide +kernel
+example : Py.W5Y.ReadsBackThreshold parseNum ⟨3, 1 / 10000⟩ (.threshold "Threshold" ">=" (.fin (1 / 4))) := by
+  unfold Py.W5Y.ReadsBackThreshold; decide +kernel
 
 end C14
